@@ -192,13 +192,32 @@ theorem utf8Units_ascii (l : List Nat) (h : Ascii l) : ∃ it, utf8Units l = .ok
       simp only [hh, ↓reduceIte, hs, hb, bind, Except.bind, pure, Except.pure]
     · rw [unitsOf_append, hbu]; rfl
 
+theorem otherBulkLoop_ascii (e : Enc) (hk : e.kind = .other) (ha : AsciiOk e) (l : List Nat) (h : Ascii l) :
+    ∃ it, otherBulkLoop e l false = .ok it ∧ unitsOf it = l := by
+  induction l with
+  | nil => exact ⟨[], rfl, rfl⟩
+  | cons u t ih =>
+    have hu := h u (by simp)
+    obtain ⟨b, hb, hbu⟩ := ih (fun x hx => h x (by simp [hx]))
+    have hh : isHigh u = false := by simp [isHigh]; omega
+    have hw : wCP e false u t = .ok ([.one u], false) := by
+      unfold wCP
+      simp only [hk, decodeHead, hh, ↓reduceIte, bind, Except.bind, ha u hu, pure, Except.pure, otherScalar]
+      have : ¬ u > 0xFFFF := by omega
+      simp [this]
+    exact ⟨[.one u] ++ b, by simp only [otherBulkLoop, hw, hb, bind, Except.bind, pure, Except.pure], by
+      rw [unitsOf_append, hbu]; simp [unitsOf, Item.units]⟩
+
 theorem wStr_ascii (e : Enc) (ha : AsciiOk e) (l : List Nat) (h : Ascii l) :
     ∃ it, wStr e l = .ok it ∧ unitsOf it = l := by
   unfold wStr
   cases hk : e.kind with
   | utf8 => exact utf8Units_ascii l h
   | utf16 => exact ⟨_, rfl, by simp [unitsOf, Item.units]⟩
-  | other => exact ⟨_, rfl, flatMap_otherChar_ascii e ha l h⟩
+  | other =>
+    cases otherBulkPairAware with
+    | false => exact ⟨_, rfl, flatMap_otherChar_ascii e ha l h⟩
+    | true => simp only [↓reduceIte]; exact otherBulkLoop_ascii e hk ha l h
 
 theorem decDigits_ascii (v : Nat) : Ascii (decDigits v) := by
   intro u hu
